@@ -10,6 +10,7 @@ import FlatccModel.SchemaNum
 import FlatccModel.Layout
 import FlatccModel.Trie
 import FlatccModel.TrieGen
+import FlatccModel.Base64
 import FlatccModel.Builder
 import FlatccModel.Alloc
 import FlatccModel.StructGraph
@@ -470,7 +471,7 @@ def buildOp (args : List String) : String :=
     let fl := flags.toNat!
     let (v, _) := parseVal toks.toArray 0
     let cfg : Config := { ident := if ident == "-" then [] else hexToBytes ident, withSize := fl % 2 == 1,
-                          blockAlign := ba.toNat!, clustering := fl / 2 % 2 == 0 }
+                          blockAlign := ba.toNat!, clustering := fl / 2 % 2 == 0, pre := fl / 8 % 2 == 1 }
     let (bytes, al, emits) := build cfg v
     let es := ",".intercalate (emits.map (fun e => s!"{e.1}:{e.2}"))
     s!"ok {al} {bytesToHex bytes} {if es.isEmpty then "-" else es}"
@@ -498,10 +499,45 @@ def sgraphOp (args : List String) : String :=
     | d :: _ => s!"fail first={match d with | .circular => "circular" | .deep => "deep" | .empty => "empty"} diags={st.diags.length}"
   | _ => "bad-op"
 
+/-- b64 enc|dec|decl|size|parse|chunks|rooms: see OUT/h_b64.c (pbase64.h, FlatccModel/Base64.lean) -/
+def b64Op (args : List String) : String :=
+  open Flatcc.Base64 in
+  match args with
+  | ["enc", mode, hex] =>
+    let m := natArg mode
+    let src := hexToBytes hex
+    s!"{encodeRet m} {bytesToHex (encode src m)} {if encodeRet m == 0 then src.length else 0}"
+  | ["dec", mode, hex] =>
+    let r := decode (hexToBytes hex) (natArg mode)
+    s!"{r.ret} {bytesToHex r.decoded} {r.srcConsumed}"
+  | ["decl", mode, lim, hex] =>
+    let r := decodeLim (natArg lim) (hexToBytes hex) (natArg mode)
+    s!"{r.ret} {bytesToHex r.decoded} {r.srcConsumed}"
+  | ["size", len, mode] => s!"{encodedSize (natArg len) (natArg mode)} {decodedSize (natArg len)}"
+  | ["parse", urlsafe, hex] =>
+    (match parseBase64 (hexToBytes hex) (natArg urlsafe != 0) with
+     | some l => s!"ok {bytesToHex l}"
+     | none => "fail")
+  | ["chunks", mode, chunk, hex] => bytesToHex (printChunks (natArg chunk) (hexToBytes hex) (natArg mode))
+  | ["print", mode, r0, sched, hex] =>
+    -- see OUT/h_b64print.c: r0 = room after the opening quote, sched = room after each flush, then 256
+    let m := natArg mode
+    let src := hexToBytes hex
+    let sch := (if sched == "-" then [] else (sched.splitOn ",").map natArg) ++ List.replicate 64 256
+    let first := encodedSize src.length m ≥ natArg r0          -- `if (ctx->p + len >= ctx->pflush) flush`
+    let pieces := printRoomsPieces (if first then sch else [natArg r0]) src m
+    let lens := pieces.map List.length
+    let lens := if first then 1 :: (lens.dropLast ++ [lens.getLastD 0 + 1]) else [lens.getLastD 0 + 2]
+    s!"{bytesToHex (34 :: pieces.flatten ++ [34])} {",".intercalate (lens.map toString)}"
+  | ["rooms", mode, rooms, hex] =>
+    bytesToHex (printRooms ((rooms.splitOn ",").map natArg) (hexToBytes hex) (natArg mode))
+  | _ => "bad-op"
+
 def step (line : String) : String :=
   match line.trimAscii.toString.splitOn " " with
   | "num" :: args => numOp args
   | "build" :: args => buildOp args
+  | "b64" :: args => b64Op args
   | "alloc" :: args => allocOp args
   | "sgraph" :: args => sgraphOp args
   | "refmap" :: args => refmapOp args
